@@ -197,7 +197,7 @@ func (e *Engine) applySummary(st *State, fr *Frame, callee *ssa.Function, fc *Fu
 				engineErr("ghostset %q: address does not resolve", g.Addr)
 			}
 			av := e.unbox(st, typeByID[tagc], iv[1])
-			vv := e.evalSpecVal(st, e.genFn(fc, fmt.Sprintf("%s_gsv%d", base, i)), cargs)
+			vv := e.evalSpecFnVal(st, e.genFn(fc, fmt.Sprintf("%s_gsv%d", base, i)), cargs)
 			ghostSetArrays["ghost|"+g.Kind] = true
 			gs = append(gs, gsUpd{"ghost|" + g.Kind, av[0], vv[0]})
 		}
